@@ -223,15 +223,23 @@ def validate : AOp → Except QRes QOp
 inductive MOp where
   | q (k : Bytes) (o : QOp)
   | a (k : Bytes) (o : AOp)       -- as called: may be rejected
-  | reopen (pre : Bytes → List Bytes)   -- the preload handed to the new object at each key
+  | reopen (pre : Bytes → Option (List Bytes))   -- per key: `some p` = a new object preloaded with `p`; `none` = the SAME object re-injected
 
 /-- `Hold` rebuilt after reopen: a fresh object injected at every key, in order; a failing inject stops -/
-def injectAll {α : Type} [DecidableEq α] (cls : Bytes → α) (kind : QKind) (pre : Bytes → List Bytes) :
+def injectAll {α : Type} [DecidableEq α] (cls : Bytes → α) (kind : QKind) (pre : Bytes → Option (List Bytes)) :
     List Bytes → Db → MS → Db × MS × Option Exn
   | [], db, ms => (db, ms, none)
-  | k :: ks, db, ms => match inject cls kind k db (pre k) with
-    | (db', .ok q) => injectAll cls kind pre ks db' (setQ ms k q)
-    | (db', .error x) => (db', ms, some x)
+  | k :: ks, db, ms => match pre k with
+    | some p => (match inject cls kind k db p with
+      | (db', .ok q) => injectAll cls kind pre ks db' (setQ ms k q)
+      | (db', .error x) => (db', ms, some x))
+    | none =>
+      -- the old object is put into the new Hold: `sync()` does nothing unless it is stale
+      if (ms k).stale then
+        (match syncBody cls kind k db (ms k).mem with
+         | (db', .ok q) => injectAll cls kind pre ks db' (setQ ms k q)
+         | (db', .error x) => (db', ms, some x))
+      else injectAll cls kind pre ks db ms
 
 def mstep {α : Type} [DecidableEq α] (cls : Bytes → α) (kind : QKind) (keys : List Bytes) (db : Db) (ms : MS) : MOp → Db × MS × QRes
   | .q k o => ((qstep cls kind k db (ms k) o).1, setQ ms k (qstep cls kind k db (ms k) o).2.1, (qstep cls kind k db (ms k) o).2.2)
